@@ -36,12 +36,15 @@ pub struct TrustSnap {
     /// per session: (prove state last header hash, request content bytes)
     pub prove: BTreeMap<usize, (Option<Vec<u8>>, Option<Vec<u8>>)>,
     pub raw_last_state: Vec<u8>,
+    pub max_script_progress: u64,
+    pub min_filtered: u64,
 }
 
 #[derive(Default)]
 pub struct Checker {
     pub honest_only: bool,
     pub check_index: bool,
+    pub stride: Option<u64>,
     pub flags: HashSet<String>,
     pub scripts: BTreeMap<ScriptKey, ScriptModel>,
     pub last_fault_at: u64,
@@ -75,6 +78,11 @@ impl Checker {
         c.flags = plan.flags.iter().cloned().collect();
         c.honest_only = plan.has_flag("honest");
         c.check_index = plan.has_flag("index");
+        c.stride = plan
+            .flags
+            .iter()
+            .find_map(|f| f.strip_prefix("audit_stride=").and_then(|v| v.parse::<u64>().ok()))
+            .map(|k| k.max(1));
         c
     }
 
@@ -100,6 +108,14 @@ impl Checker {
             .into_iter()
             .map(|(n, h)| (n, h.as_slice().to_vec()))
             .collect();
+        s.max_script_progress = c
+            .storage
+            .get_filter_scripts()
+            .iter()
+            .map(|x| x.block_number)
+            .max()
+            .unwrap_or(0);
+        s.min_filtered = c.storage.get_min_filtered_block_number();
         for (session, _) in sim.sessions.iter() {
             if let Some(st) = c.peers.get_state(&PeerIndex::new(*session)) {
                 let ps = st
@@ -207,6 +223,65 @@ impl Checker {
             // a protocol-following peer got banned
             let code = reason.split(':').next().unwrap_or(reason).to_string();
             let mut clause = format!("honest_peer_banned:{}", normalize(&code));
+            // reorg window: the banned peer, or a peer contributing to the agreed filter
+            // hashes, answers from another branch than the one the client has proven for it
+            if let (Some(p), Some(c)) = (p, sim.client.as_ref()) {
+                let view = sim.peers[p].view;
+                let filter_answer = self
+                    .cur
+                    .as_ref()
+                    .map(|(_, t, _)| {
+                        matches!(
+                            t.kind,
+                            Kind::BlockFilters | Kind::BlockFilterHashes | Kind::BlockFilterCheckPoints
+                        )
+                    })
+                    .unwrap_or(false);
+                let mut off_chain = false;
+                for (s2, _) in sim.sessions.iter() {
+                    let proven = c
+                        .peers
+                        .get_state(&PeerIndex::new(*s2))
+                        .and_then(|st| st.get_prove_state().map(|ps| ps.get_last_header().header().hash()));
+                    if let Some(h) = proven {
+                        if let Some(id) = sim.world.by_hash.get(&h) {
+                            let tip_id = sim.world.branches[view.branch].ids[view.height as usize];
+                            if !sim.world.is_ancestor_or_self(*id, tip_id) {
+                                off_chain = true;
+                            }
+                        }
+                    }
+                }
+                if off_chain && (filter_answer || reason.contains("check points")) {
+                    clause = "honest_peer_banned_for_filter_answer_during_reorg_window".to_string();
+                }
+            }
+            // stale per-peer filter hashes of an abandoned branch: consequence of a fork the
+            // client could not notice (C04 root cause)
+            let filter_kind = self
+                .cur
+                .as_ref()
+                .map(|(_, t, _)| {
+                    matches!(
+                        t.kind,
+                        Kind::BlockFilters | Kind::BlockFilterHashes | Kind::BlockFilterCheckPoints
+                    )
+                })
+                .unwrap_or(false);
+            if filter_kind && !clause.contains("during_reorg_window") {
+                if let Some((c4, fork)) = self.c04.unnoticed.last().cloned() {
+                    sim.violate(
+                        "C04",
+                        &c4,
+                        format!(
+                            "the tip moved to another branch (fork point #{}) without the client noticing; filter hashes of the abandoned branch are still held and the honest s{} is banned: {}",
+                            fork, session, reason
+                        ),
+                    );
+                    sim.taint = Some(format!("C04/{}", c4));
+                    return;
+                }
+            }
             if let Some((s, tag, _)) = self.cur.as_ref() {
                 if *s == session && tag.honest && tag.kind == Kind::SendLastStateProof {
                     let asked_samples = tag
@@ -306,6 +381,7 @@ impl Checker {
         data: &Bytes,
         tag: &Tag,
     ) {
+        crate::oracle2::c04_after(self, sim, session, proto, data, tag);
         crate::oracle2::c01_after(self, sim, session, proto, data, tag);
         crate::oracle2::c02_after(self, sim, session, proto, data, tag);
         crate::oracle2::c06_after(self, sim, session, proto, data, tag);
@@ -332,6 +408,10 @@ impl Checker {
         self.refresh_script_progress(sim);
         if self.flag("audit_every_event") {
             self.audit(sim, "step");
+        } else if let Some(k) = self.stride {
+            if sim.events % k == 0 {
+                self.audit(sim, "step");
+            }
         }
         // coverage: (event kind, abstract state)
         let st = self.abstract_state(sim);
@@ -375,7 +455,7 @@ impl Checker {
         if sim.stop && !sim.violations.is_empty() {
             return;
         }
-        if sim.stats.get("crash_injected").is_some() {
+        if sim.stats.get("crash_injected").is_some() || self.c04.aborted {
             return;
         }
         if sim.client.is_none() {
